@@ -159,7 +159,7 @@ class Program:
                             except Exception:
                                 exported = ()
                     tree, info = normalise_module(tree, exported)
-                    if info["call_sites"]:
+                    if info["call_sites"] or info.get("loops_unrolled"):
                         self.normal_info[rel] = info
                 m = ModuleInfo(name=name, path=path, relpath=rel, source=src, tree=tree, is_pkg=is_pkg)
                 self.modules[name] = m
